@@ -90,7 +90,9 @@ def light(name, d, n_classes):
   v = {
       'Covariance': [{}],
       'LFDA': [{}, {'n_components': kd, 'embedding_type': 'orthonormalized'},
-               {'embedding_type': 'plain', 'k': 2}],
+               {'embedding_type': 'plain', 'k': 2},
+               # (k >= n_features is legal: LFDA warns and clamps it)
+               {'embedding_type': 'weighted', 'k': d + 2}],
       'LMNN': [{}, {'n_components': 1, 'init': 'pca'}, {'init': 'random'}],
       'NCA': [{}, {'n_components': kd, 'init': 'identity'},
               {'init': 'random'}],
